@@ -50,3 +50,8 @@ claimed["C07"] = dict(engine="engine-I", category="model_checking",
   text="for each measure every ordered pair of column pairs over the 17-symbol alphabet (83 521 sequence pairs) on a backbone containing all bases, a transition and a transversion, in upper/lower/mixed case, read back from `closest -n 289 --table`; all one- and two-column pairs without backbone for raw/snp; numeric comparison (|delta|<=1.5e-9) with the definitions (tn93: Tamura-Nei eq. 7, target frequencies), only where the definition is defined",
   note="trusted: ref_dist.go; float64 evaluation of eq. 7 (the tolerance is 6 orders of magnitude above rounding error)",
   design_ref="DESIGN.md 3 (C07)")
+claimed["C10"] = dict(engine="engine-I", category="model_checking",
+  technique="bounded-exhaustive input enumeration on the real entry point vs. direct transcription of the statement",
+  text="every sequence over {A,C,R,N,-} up to length 6 (thorough 8) against three references (incl. one with R, N and '-'), 2000 rows per call, plus all length-3 sequences over 23 symbol spellings; each row compared with the expected SNP list, maximal ambiguity ranges and both counts; lengths 1-4 replayed through the real binary",
+  note="trusted: c10Expect in harness/c10.go; small-scope argument: the scan's state is one open-run flag and two indices",
+  design_ref="DESIGN.md 3 (C10)")
